@@ -174,7 +174,6 @@ type decodeSite struct {
 
 func (c *Ctx) decodeSites() []decodeSite {
 	var out []decodeSite
-	seen := map[token.Pos]bool{}
 	// (a) on the machines' symbolic iteration paths: calls of a token consumer returning (string, error) whose first argument is the
 	// content of one of the machine's token buffers (however many temporaries it passes through)
 	for _, m := range c.machines().each() {
@@ -187,6 +186,7 @@ func (c *Ctx) decodeSites() []decodeSite {
 		}
 		roles := m.builderRoles()
 		var sites []*ast.CallExpr
+		seen := map[token.Pos]bool{} // per machine: a call inside a helper shared by both machines is a decode site of each
 		for _, ip := range sm.iter {
 			for _, st := range ip.Steps {
 				if st.Kind != "call" || st.Call == nil || st.Call.Fun == nil || !sm.decoder[st.Call.Fun] || len(st.Call.Args) == 0 || st.Call.Site == nil {
@@ -208,12 +208,23 @@ func (c *Ctx) decodeSites() []decodeSite {
 		sort.Slice(sites, func(i, j int) bool { return sites[i].Pos() < sites[j].Pos() })
 		for _, site := range sites {
 			ds := decodeSite{fn: m.name, call: site, cal: c.callee(site)}
-			ast.Inspect(m.fn.Body, func(n ast.Node) bool {
-				if as, ok := n.(*ast.AssignStmt); ok && len(as.Rhs) == 1 && len(as.Lhs) == 2 && unparen(as.Rhs[0]) == ast.Expr(site) {
-					ds.stmt, ds.errV = as, c.obj(as.Lhs[1])
+			find := func(body *ast.BlockStmt) {
+				ast.Inspect(body, func(n ast.Node) bool {
+					if as, ok := n.(*ast.AssignStmt); ok && len(as.Rhs) == 1 && len(as.Lhs) == 2 && unparen(as.Rhs[0]) == ast.Expr(site) {
+						ds.stmt, ds.errV = as, c.obj(as.Lhs[1])
+					}
+					return true
+				})
+			}
+			find(m.fn.Body)
+			if ds.stmt == nil {
+				// the call sits in a helper the executor inlined (`stringStep(&val, char, *line)`): its statement is in that helper
+				for _, fd := range c.decls {
+					if fd.Body != nil && fd.Body.Pos() <= site.Pos() && site.Pos() < fd.Body.End() {
+						find(fd.Body)
+					}
 				}
-				return true
-			})
+			}
 			if ds.cal != nil && ds.stmt != nil {
 				out = append(out, ds)
 			}
